@@ -53,8 +53,72 @@ func vSnake(name string) string {
 
 // the generated models import go-openapi packages that cannot be imported in memory: the files
 // are type-checked leniently (their struct and named types only use built-in types)
+// the declarations of go-openapi/strfmt the generated models of this spec refer to, with the doc
+// comments of the real package (the scanner reads the swagger:strfmt annotation from them)
+const vMiniStrfmt = `package strfmt
+
+// Registry is the format registry (its methods are of no interest to the scanner)
+type Registry interface{}
+
+// UUID represents a uuid string format
+//
+// swagger:strfmt uuid
+type UUID string
+
+// MarshalText turns this instance into text
+func (u UUID) MarshalText() ([]byte, error) { return []byte(string(u)), nil }
+
+// Email represents the email string format as specified by the json schema spec
+//
+// swagger:strfmt email
+type Email string
+
+// MarshalText turns this instance into text
+func (e Email) MarshalText() ([]byte, error) { return []byte(string(e)), nil }
+
+// Hostname represents the hostname string format as specified by the json schema spec
+//
+// swagger:strfmt hostname
+type Hostname string
+
+// MarshalText turns this instance into text
+func (h Hostname) MarshalText() ([]byte, error) { return []byte(string(h)), nil }
+
+// IPv4 represents an IP v4 address
+//
+// swagger:strfmt ipv4
+type IPv4 string
+
+// MarshalText turns this instance into text
+func (u IPv4) MarshalText() ([]byte, error) { return []byte(string(u)), nil }
+
+// URI represents the uri string format as specified by the json schema spec
+//
+// swagger:strfmt uri
+type URI string
+
+// MarshalText turns this instance into text
+func (u URI) MarshalText() ([]byte, error) { return []byte(string(u)), nil }
+`
+
 func vLoadGenerated(defs []string) ([]*packages.Package, bool) {
 	fset := token.NewFileSet()
+	imp := vImporter{}
+	sfFile, err := parser.ParseFile(fset, "strfmt/default.go", vMiniStrfmt, parser.ParseComments)
+	if err != nil {
+		return nil, false
+	}
+	sfInfo := &types.Info{
+		Types: map[ast.Expr]types.TypeAndValue{}, Defs: map[*ast.Ident]types.Object{}, Uses: map[*ast.Ident]types.Object{},
+		Implicits: map[ast.Node]types.Object{}, Selections: map[*ast.SelectorExpr]*types.Selection{}, Scopes: map[ast.Node]*types.Scope{},
+	}
+	sfTypes, err := (&types.Config{}).Check("github.com/go-openapi/strfmt", fset, []*ast.File{sfFile}, sfInfo)
+	if err != nil {
+		return nil, false
+	}
+	imp["github.com/go-openapi/strfmt"] = sfTypes
+	sfPkg := &packages.Package{ID: "github.com/go-openapi/strfmt", Name: "strfmt", PkgPath: "github.com/go-openapi/strfmt", Fset: fset,
+		Syntax: []*ast.File{sfFile}, Types: sfTypes, TypesInfo: sfInfo, Imports: map[string]*packages.Package{}}
 	var files []*ast.File
 	for _, d := range defs {
 		src, ok := vHostFile("models/" + vSnake(d) + ".go")
@@ -71,13 +135,13 @@ func vLoadGenerated(defs []string) ([]*packages.Package, bool) {
 		Types: map[ast.Expr]types.TypeAndValue{}, Defs: map[*ast.Ident]types.Object{}, Uses: map[*ast.Ident]types.Object{},
 		Implicits: map[ast.Node]types.Object{}, Selections: map[*ast.SelectorExpr]*types.Selection{}, Scopes: map[ast.Node]*types.Scope{},
 	}
-	conf := types.Config{Importer: vImporter{}, Error: func(error) {}}
+	conf := types.Config{Importer: imp, Error: func(error) {}}
 	tp, _ := conf.Check("example.com/models", fset, files, info)
 	if tp == nil {
 		return nil, false
 	}
 	p := &packages.Package{ID: "example.com/models", Name: "models", PkgPath: "example.com/models", Fset: fset, Syntax: files, Types: tp, TypesInfo: info,
-		Imports: map[string]*packages.Package{}}
+		Imports: map[string]*packages.Package{"github.com/go-openapi/strfmt": sfPkg}}
 	return []*packages.Package{p}, true
 }
 
